@@ -309,7 +309,7 @@ func constructMatchStyleRegex(s *Segment) (*regexp.Regexp, []string, error) {
 
 			binds = append(binds, p.Ident)
 			buf.WriteString("(")
-			buf.WriteString(*p.Value.Regex)
+			buf.WriteString(nonCapturing(*p.Value.Regex))
 			buf.WriteString(")")
 		}
 	}
@@ -320,6 +320,41 @@ func constructMatchStyleRegex(s *Segment) (*regexp.Regexp, []string, error) {
 		return nil, nil, errors.Wrapf(err, "compile regexp near position %d", s.Pos.Offset)
 	}
 	return re, binds, nil
+}
+
+// nonCapturing rewrites the capturing groups of the expression into
+// non-capturing ones, so that every bind parameter owns exactly one sub-match
+// of the constructed regexp regardless of groups in its own expression.
+func nonCapturing(expr string) string {
+	var buf strings.Builder
+	inClass := false
+	for i := 0; i < len(expr); i++ {
+		c := expr[i]
+		buf.WriteByte(c)
+		switch {
+		case c == '\\':
+			// An escaped character is always a literal.
+			if i+1 < len(expr) {
+				i++
+				buf.WriteByte(expr[i])
+			}
+		case inClass:
+			inClass = c != ']'
+		case c == '[':
+			inClass = true
+			// A "]" that directly follows the opening bracket is a literal.
+			if i+1 < len(expr) && expr[i+1] == ']' {
+				i++
+				buf.WriteByte(expr[i])
+			}
+		case c == '(':
+			// Leave flag groups such as "(?i)" untouched.
+			if i+1 >= len(expr) || expr[i+1] != '?' {
+				buf.WriteString("?:")
+			}
+		}
+	}
+	return buf.String()
 }
 
 // getParentBindSet returns a set of all bind parameters defined in parent
